@@ -335,7 +335,7 @@ impl Scanner {
         &self.chars[start..end]
     }
 
-    fn scan_rune(&mut self, start_at: usize) -> Result<Vec<char>> {
+    fn scan_rune(&mut self, start_at: usize, quote: char) -> Result<Vec<char>> {
         let mut chars = self.chars[start_at..].iter().copied();
         let (next1, next2) = (chars.next(), chars.next());
 
@@ -361,7 +361,9 @@ impl Scanner {
                 Some('u') => match_n(4, is_hex_digit)?,
                 Some('U') => match_n(8, is_hex_digit)?,
                 Some(ch) if is_octal_digit(ch) => match_n(2, is_octal_digit)?,
-                Some(ch) if is_escaped_char(ch) => return Ok(vec!['\\', ch]),
+                Some(ch) if is_escaped_char(ch) && (!matches!(ch, '\'' | '"') || ch == quote) => {
+                    return Ok(vec!['\\', ch])
+                }
                 Some(_) => return Err(self.error("unknown escape sequence")),
                 None => return Err(self.error("literal not terminated")),
             },
@@ -392,7 +394,7 @@ impl Scanner {
         let chars = &self.chars;
         assert_eq!(&chars[self.pos], &'\'');
 
-        let mut rune = self.scan_rune(self.pos + 1)?;
+        let mut rune = self.scan_rune(self.pos + 1, '\'')?;
         if rune == ['\''] {
             return Err(self.error_at(self.pos, "empty rune literal or unescaped ' in rune literal"));
         }
@@ -426,7 +428,7 @@ impl Scanner {
             let end = self.chars.len();
             let mut pos = self.pos + 1;
             while pos < end {
-                let mut rune = self.scan_rune(pos)?;
+                let mut rune = self.scan_rune(pos, quote)?;
                 pos += rune.len();
                 let quit = rune.len() == 1 && rune[0] == quote;
                 result.append(&mut rune);
